@@ -148,7 +148,8 @@ func (r *Router) match(method, path string) (rt *Route, ps Params) {
 	if r.enableCaching && r.cachedRoutes != nil {
 		route, ok := r.cachedRoutes.Get(method + path)
 		if ok {
-			return route, route.params
+			// Notice: each request gets its own copy, handlers may change the Params
+			return route, route.params.clone()
 		}
 	}
 
